@@ -45,7 +45,7 @@ type Op struct {
 
 func (o Op) String() string {
 	switch o.K {
-	case "sub", "subw", "mark", "unmark":
+	case "sub", "subw", "mark", "unmark", "unmarkrace":
 		if o.K == "sub" && o.D > 0 {
 			return fmt.Sprintf("sub(%s)!storage-fault-at-call-%d", o.L, o.D)
 		}
@@ -700,6 +700,61 @@ func (w *World) Apply(op Op) *Step {
 				w.SavedWork = tips[0].Work
 			}
 		}
+	case "unmarkrace":
+		// MarkHeaderNotInvalid(L) with a second caller's MarkHeaderInvalid(M) arriving while the
+		// first is inside its write of the invalid list (a slow storage back-end): the second call
+		// either waits for the first (the repository's lock) or runs in the window; it gets 50 ms to
+		// show which, then the write goes on. Afterwards both have happened: L is unmarked, M is
+		// marked (op.L = "L|M").
+		parts := strings.SplitN(op.L, "|", 2)
+		hl, hm := Get(parts[0]).Hash, Get(parts[1]).Hash
+		done := make(chan struct{})
+		var err2 error
+		var p2 string
+		w.Store.DuringNextWrite("headers/invalid", func() {
+			go func() {
+				err2, p2 = Safe(func() error { return w.Repo.MarkHeaderInvalid(w.Ctx, hm) })
+				close(done)
+			}()
+			select {
+			case <-done:
+			case <-time.After(50 * time.Millisecond):
+			}
+		})
+		err, p := Safe(func() error { return w.Repo.MarkHeaderNotInvalid(w.Ctx, hl) })
+		w.Store.DuringNextWrite("", nil)
+		select {
+		case <-done:
+		case <-time.After(5 * time.Second):
+			p2 = "the second caller's MarkHeaderInvalid did not return"
+		}
+		st.Panic = p + p2
+		if err != nil || err2 != nil {
+			st.Err = fmt.Sprint(err, err2)
+		}
+		// model: unmark L, then mark M
+		for i, m := range w.Marked {
+			if m == hl {
+				w.Marked = append(append([]bitcoin.Hash32{}, w.Marked[:i]...), w.Marked[i+1:]...)
+				break
+			}
+		}
+		for i, l := range w.MarkedLabels {
+			if l == parts[0] {
+				w.MarkedLabels = append(append([]string{}, w.MarkedLabels[:i]...), w.MarkedLabels[i+1:]...)
+				break
+			}
+		}
+		if !w.isMarked(hm) {
+			w.Marked = append(w.Marked, hm)
+			w.MarkedLabels = append(w.MarkedLabels, parts[1])
+		}
+		for _, n := range w.Tree.Sorted() {
+			if n.HasAncestorOrSelf(RH(hm)) {
+				w.Removed = append(w.Removed, n.Label)
+			}
+		}
+		w.Tree.Remove(RH(hm))
 	case "unmark":
 		h := Get(op.L).Hash
 		err, p := Safe(func() error { return w.Repo.MarkHeaderNotInvalid(w.Ctx, h) })
